@@ -18,6 +18,14 @@ def mkHStyle (l : List Str) : Option HStyle :=
 def builtinHStyles : List (String × Option HStyle) :=
   Generated.hprintStyles.map fun e => (e.1, mkHStyle (e.2.map String.toList))
 
+/-- every glyph character is dropped by `encode("ascii", "ignore")` or is a blank: then `str_to_tree`
+    needs no prefix list -/
+def asciiBlind (st : Style) : Bool :=
+  (st.stem ++ st.branch ++ st.stemFinal).all fun c => decide (c.toNat ≥ 128) || c == ' '
+
+/-- the name survives `encode("ascii", "ignore")` -/
+def asciiName (n : Str) : Bool := n.all fun c => decide (c.toNat < 128)
+
 /-- the pinned built-in horizontal style "ascii": one glyph for all five connector roles (K4) -/
 def asciiPinned : HStyle := ⟨'+', '+', '+', '+', '+', '|', '-'⟩
 
